@@ -9,7 +9,9 @@ package main
 
 import (
 	"bytes"
+	"encoding/json"
 	"fmt"
+	"os"
 	"runtime/debug"
 	"strconv"
 	"strings"
@@ -342,7 +344,119 @@ func (p *prop) Exec(lines []string) []string {
 	return outs
 }
 
+// big65536 is the extra check for the largest official-format instances: all 65536 containers
+// present, without runs (cookie 12346) and with runs (count stored as 65535 in the cookie, offset
+// header present), including a full container and a 4096-value array. The list-based model
+// driver is quadratic in the container count, so this instance is compared with the source set
+// directly (the encoder used here is the Go twin of Spec.encodeOfficial, which every `off` line
+// of the main stream compares byte-for-byte with the Lean one).
+func big65536() {
+	type verdict struct {
+		OK          bool     `json:"ok"`
+		Evaluations int      `json:"evaluations"`
+		Distinct    int      `json:"distinct_nontrivial"`
+		What        string   `json:"what"`
+		Found       bool     `json:"found"`
+		Replay      []string `json:"replay_lines"`
+	}
+	v := verdict{OK: true}
+	var problems []string
+	for _, mode := range []int{0, 1, 2} {
+		var es []codec.Entry
+		for k := 0; k < 65536; k++ {
+			vals := []uint16{7, 8, 9, uint16(k)}
+			switch k {
+			case 3:
+				vals = make([]uint16, 65536)
+				for i := range vals {
+					vals[i] = uint16(i)
+				}
+			case 5:
+				vals = make([]uint16, 4096)
+				for i := range vals {
+					vals[i] = uint16(i * 16)
+				}
+			}
+			if k != 3 && k != 5 {
+				// ascending and duplicate-free
+				m := map[uint16]bool{}
+				var u []uint16
+				for _, x := range []uint16{7, 8, 9, uint16(k)} {
+					if !m[x] {
+						m[x] = true
+						u = append(u, x)
+					}
+				}
+				for i := 1; i < len(u); i++ {
+					for j := i; j > 0 && u[j-1] > u[j]; j-- {
+						u[j-1], u[j] = u[j], u[j-1]
+					}
+				}
+				vals = u
+			}
+			es = append(es, codec.Entry{Key: uint64(k), Typ: 'a', Vals: vals})
+		}
+		want := codec.Values(es)
+		enc := codec.OfficialEncode(mode, es)
+		for _, coll := range []string{"s", "b"} {
+			v.Evaluations++
+			res := vh.Guard("big", func() string {
+				g, free := codec.Guard(enc)
+				defer free()
+				b := codec.NewBitmap(coll)
+				if err := b.UnmarshalBinary(g); err != nil {
+					return "decode error: " + err.Error()
+				}
+				got := b.Slice()
+				if len(got) != len(want) {
+					return fmt.Sprintf("decoded %d values, want %d", len(got), len(want))
+				}
+				for i := range got {
+					if got[i] != want[i] {
+						return fmt.Sprintf("value %d is %d, want %d", i, got[i], want[i])
+					}
+				}
+				if !bytes.Equal(g, enc) {
+					return "input modified"
+				}
+				b2 := codec.NewBitmap(coll)
+				if err := b2.UnmarshalBinary(g); err != nil || b2.Count() != uint64(len(want)) {
+					return "second decode differs"
+				}
+				t := codec.NewBitmap(coll)
+				changed, _, err := t.ImportRoaringBits(g, false, false, 0)
+				if err != nil || changed != len(want) || t.Count() != uint64(len(want)) {
+					return fmt.Sprintf("import: changed=%d err=%v count=%d want %d", changed, err, t.Count(), len(want))
+				}
+				changed, _, err = t.ImportRoaringBits(g, true, false, 0)
+				if err != nil || changed != len(want) || t.Count() != 0 {
+					return fmt.Sprintf("clear import: changed=%d err=%v count=%d", changed, err, t.Count())
+				}
+				return "ok"
+			})
+			if res != "ok" {
+				v.OK, v.Found = false, true
+				problems = append(problems, fmt.Sprintf("mode %d coll %s: %s", mode, coll, res))
+				v.Replay = append(v.Replay, fmt.Sprintf("off %s %d K0..65535:a:7-9", coll, mode))
+			}
+		}
+	}
+	v.Distinct = v.Evaluations
+	v.What = "official format with all 65536 containers (modes 0/1/2 of the reference encoder, slice and B-tree collections): decode = source set, input unmodified, second decode equal, import set/clear with exact changed"
+	if len(problems) > 0 {
+		v.What += " — FAILED: " + strings.Join(problems, "; ")
+	}
+	out, _ := json.Marshal(v)
+	fmt.Println(string(out))
+}
+
 func main() {
 	debug.SetPanicOnFault(true)
+	for _, a := range os.Args[1:] {
+		if a == "--big65536" {
+			big65536()
+			return
+		}
+	}
 	vh.Main(&prop{})
 }
